@@ -8,7 +8,7 @@ from .. import core
 
 NA = "-"
 TNONE = {"clean": NA, "depth": 0}
-PNONE = {"cautious": NA, "pq": NA, "clean": NA, "ns": NA, "lay": NA}
+PNONE = {"cautious": NA, "pq": NA, "clean": NA, "ns": NA, "lay": NA, "ocr": NA}
 
 
 def op(name, commit, kw, cfg):
@@ -26,7 +26,7 @@ def universe(kind):
           {"cautious": "F", "pq": "T", "clean": "T", "ns": "s"}, {"cautious": "T", "pq": "F", "clean": "T", "ns": "s"}]
     kws = [PNONE, dict(PNONE, cautious="T"), dict(PNONE, cautious="F", pq="T"), dict(PNONE, pq="T", clean="T", ns="s"),
            dict(PNONE, pq="F"), dict(PNONE, clean="T"), dict(PNONE, ns="s", cautious="T"), dict(PNONE, lay="copy_all"),
-           dict(PNONE, lay="TR_desc_S", pq="T"), dict(PNONE, lay="TRS_desc")]
+           dict(PNONE, lay="TR_desc_S", pq="T"), dict(PNONE, lay="TRS_desc"), dict(PNONE, ocr="T"), dict(PNONE, ocr="T", pq="T")]
     ops = [op("parse", c, k, PNONE) for c in (True, False) for k in kws]
     ops += [op("parse_tracts", True, dict(PNONE, clean=x), PNONE) for x in (NA, "T", "F")]
     ops += [op("preprocess", c, dict(PNONE, ns=x), PNONE) for c in (True, False) for x in (NA, "s", "n")]
